@@ -1,8 +1,8 @@
---------------------------- MODULE MC_Checkpoint ---------------------------
-(* Design-level run of Checkpoint: for every N in 1..MaxN and both tables the transcribed schedule obeys
+--------------------------- MODULE MC_ColumnStore ---------------------------
+(* Design-level run of ColumnStore: for every N in 1..MaxN and both tables the transcribed schedule obeys
    the contract (Preconditions, SpaceBound, TimeBound, Complete) and terminates.  Emit prints the event
    sequence of every finished run; the driver compares it with what the real tables log. *)
-EXTENDS Checkpoint, TLC, Json
+EXTENDS ColumnStore, TLC, Json
 Emit == pc = "done" => PrintT(<<"BEHAVIOUR", ToJson([tbl |-> tbl, n |-> N, ops |-> hist])>>)
 NoView == <<tbl, N, pc, i, j, stored, cnt, reads, bad>>
 =============================================================================
